@@ -128,7 +128,7 @@ theorem PlainNV.step {s : St} (h : PlainNV s) (op : Op) : PlainNV (step s op).1 
   | writeHeader c => exact h.respWriteHeader c
   | write b => exact h.respWrite b
   | flush => exact h.respFlush
-  | stream c cs => exact PlainNV.copyChunks _ (h.respWriteHeader c)
+  | stream c cs fl => exact PlainNV.copyChunks _ (h.respWriteHeader c)
   | streamWT c d =>
     simp only [C15.step]
     split
@@ -255,7 +255,7 @@ theorem step_committed (s : St) (op : Op) (h : s.committed = true âˆ¨ op.starts 
   | writeHeader c => exact respWriteHeader_committed s c
   | write b => exact respWrite_committed s b
   | flush => exact respFlush_committed s
-  | stream c cs => exact copyChunks_committed _ _ (respWriteHeader_committed s c)
+  | stream c cs fl => exact copyChunks_committed _ _ (respWriteHeader_committed s c)
   | streamWT c d =>
     simp only [step]
     split
@@ -323,7 +323,7 @@ theorem runProg_headers_only (ops : List Op) (h : ops.any Op.starts = false) : â
     | writeHeader c => exact absurd h.1 (by simp [Op.starts])
     | write b => exact absurd h.1 (by simp [Op.starts])
     | flush => exact absurd h.1 (by simp [Op.starts])
-    | stream c cs => exact absurd h.1 (by simp [Op.starts])
+    | stream c cs fl => exact absurd h.1 (by simp [Op.starts])
     | streamWT c d => exact absurd h.1 (by simp [Op.starts])
 
 /-- **C15_error_before_start** â€” the handler returns an error without having started a response
@@ -374,7 +374,7 @@ theorem Bodyless.step {ce : Bool} {s : St} (h : Bodyless ce s) (op : Op)
   | writeHeader c => exact h.respWriteHeader c
   | write b => exact absurd ho.1 (by simp [Op.makesWrite])
   | flush => exact absurd rfl ho.2
-  | stream c cs =>
+  | stream c cs fl =>
     have hcs : cs.filter (fun c => !c.isEmpty) = [] := by
       have := ho.1
       simp only [Op.makesWrite, List.any_eq_false] at this
